@@ -38,8 +38,16 @@ class StubClient:
 
     def get_object(self, **kw):
         self.log.append('GET')
-        script, ending = self.attempts.pop(0) if self.attempts else ([], 'e')
+        att = self.attempts.pop(0) if self.attempts else ([], 'e')
+        script, ending = att[0], att[1]
         self.n += 1
+        if len(att) > 2 and att[2] and not script:
+            # the fault comes from the GetObject call itself, not from the first read of its body
+            # (for the model both are "an attempt that delivered nothing")
+            if ending == 'r':
+                raise retryable_error(['incomplete', 'timeout', 'conn'][self.n % 3], self.n)
+            if ending == 'f':
+                raise InjectedFault('fatal-%s' % self.n)
         return {'Body': ScriptBody(self.obj[self.start:self.start + self.length], script, ending, self.n)}
 
 
@@ -79,7 +87,7 @@ def gen_attempts(rng, length, max_attempts, io):
             total += sz
         last = i == n - 1
         ending = 'e' if last and rng.random() < 0.75 else rng.choice(['r', 'r', 'r', 'f', 'e'])
-        atts.append((script, ending))
+        atts.append((script, ending, (not script) and ending in ('r', 'f') and rng.random() < 0.6))
         if ending in ('e', 'f'):
             break
     return atts
@@ -127,17 +135,18 @@ def corr(seed, tier):
         atts = gen_attempts(rng, length, mx, io_chunk)
         kind = 'queue' if i % 2 == 0 else 'immediate'
         impl = run_real(kind, io_chunk, start, length, mx, atts)
-        enc = ';'.join('%s:%s' % (','.join(map(str, s)) or '-', e) for s, e in atts)
+        enc = ';'.join('%s:%s' % (','.join(map(str, a[0])) or '-', a[1]) for a in atts)
         # the model needs exactly the attempts consumed; pad with EOF attempts like the stub client does
         enc_full = enc + ''.join(';-:e' for _ in range(mx))
         line = 'dl get %d %d %d %d %s' % (io_chunk, start, length, mx, enc_full)
-        nontriv = any(e == 'r' for _, e in atts) and length > 0
+        nontriv = any(a[1] == 'r' for a in atts) and length > 0
         res.note_case((kind, io_chunk, start, length, mx, enc), nontriv,
                       {'task': kind, 'io_chunksize': io_chunk, 'start': start, 'len': length,
                        'max_attempts': mx, 'attempts': enc})
         res.hit('outcome:' + impl.split('=> ')[1])
         cases.append(({'task': kind, 'io_chunksize': io_chunk, 'start': start, 'len': length,
-                       'max_attempts': mx, 'attempts': enc}, [(line, impl)]))
+                       'max_attempts': mx, 'attempts': enc,
+                       'fault_raised_by_the_call': [bool(a[2]) for a in atts]}, [(line, impl)]))
     compare_with_model(res, cases)
     return res
 
@@ -296,4 +305,40 @@ def oracle(seed, tier):
         res.samples.append(wit)
     finally:
         shutil.rmtree(tmpdir, ignore_errors=True)
+    return res
+
+
+def progress_oracle(seed, tier):
+    """C09 judged directly on one GetObject task: whatever mix of faults (raised by the call or by
+    the body, after any number of bytes), the running progress sum stays within [0, length] and a
+    successful task reported exactly `length` bytes."""
+    res = OracleResult('C09')
+    rng = rng_for(seed, 'download-progress')
+    for i in range(1500 if tier == 'quick' else 30000):
+        io_chunk = rng.randrange(1, 6)
+        start = rng.choice([0, 0, 3, 8])
+        length = rng.choice([1, 2, 5, 7, rng.randrange(1, 14)])
+        mx = rng.randrange(2, 6)
+        atts = gen_attempts(rng, length, mx, io_chunk)
+        kind = 'queue' if i % 2 == 0 else 'immediate'
+        impl = run_real(kind, io_chunk, start, length, mx, atts)
+        res.evaluations += 1
+        log, outcome = impl.split(' => ')
+        amounts = [int(x[1:]) for x in log.split() if x.startswith('p')]
+        wit = {'task': kind, 'io_chunksize': io_chunk, 'range_start': start, 'range_len': length, 'max_attempts': mx,
+               'attempts': [{'reads': a[0], 'ends_with': {'r': 'retryable fault', 'f': 'fatal fault', 'e': 'eof'}[a[1]],
+                             'raised_by_get_object_call': bool(a[2])} for a in atts], 'progress_amounts': amounts}
+        res.nontrivial.add((kind, tuple((len(a[0]), a[1], a[2]) for a in atts)))
+        run, bad = 0, None
+        for k, a in enumerate(amounts):
+            run += a
+            if run < 0 or run > length:
+                bad = (k, run)
+                break
+        if bad:
+            res.violation('download-progress-out-of-range', wit,
+                          'running progress sum %d after callback %d, range has %d bytes' % (bad[1], bad[0], length))
+        elif outcome == 'ok' and sum(amounts) != length:
+            res.violation('download-progress-sum', wit, 'successful GetObject task reported %d of %d bytes' % (sum(amounts), length))
+    res.samples.append(wit)
     return res
